@@ -25,6 +25,41 @@ type c10Case struct {
 	Separate  bool     `json:"cdb_separate_prefix_sets"`
 	Query     c02Query `json:"query"`
 	CanonName string   `json:"canonical_name"`
+	// Before: queries for the same name and type sent just before Query to a cache-enabled server
+	Before []c02Query `json:"asked_before,omitempty"`
+}
+
+// c10Configs: the four storage configurations plus two with the response cache on (a cached response must be
+// dressed with the OPT/client-subnet of the query at hand, not of the query that populated the entry)
+var c10Configs = append(append([]c02Config{}, c02Configs[:4]...),
+	c02Config{Name: "cdb-combined-cache", B: harness.Backends[0], Workers: 2, Cache: true},
+	c02Config{Name: "rdb2-builder-cache", B: harness.Backends[2], RDB: harness.RDBOpts{V2: true, Builder: true, NumCPU: 2}, Cache: true})
+
+// c10Variants: follow-up queries for the same question (likely cache hits) with other EDNS/client-subnet contents.
+func c10Variants(q c02Query, rng *rand.Rand) []c02Query {
+	var out []c02Query
+	a := q
+	a.EDNS, a.HasECS, a.Cookie, a.DO, a.Size, a.ECSIP = false, false, false, false, 0, nil
+	out = append(out, a)
+	b := q
+	b.EDNS, b.HasECS, b.ECSIP, b.Size = true, false, nil, 1232
+	out = append(out, b)
+	if q.HasECS && len(q.ECSIP) > 0 {
+		c := q
+		c.ECSIP = append([]byte{}, q.ECSIP...)
+		if c.ECSSrc >= 8 { // another address, mostly inside the same declared subnet
+			c.ECSIP[(c.ECSSrc-1)/8] ^= 1 << (7 - (c.ECSSrc-1)%8)
+		}
+		out = append(out, c)
+		if c.ECSSrc > 1 {
+			d := q
+			d.ECSSrc--
+			d.ECSIP = net.IP(q.ECSIP).Mask(net.CIDRMask(int(d.ECSSrc), 8*len(q.ECSIP)))
+			out = append(out, d)
+		}
+	}
+	rng.Shuffle(len(out), func(i, j int) { out[i], out[j] = out[j], out[i] })
+	return out
 }
 
 func c10World(seed int64) *gen.World {
@@ -180,7 +215,7 @@ func c10Queries(w *gen.World, rng *rand.Rand, n int) ([]c02Query, []string) {
 }
 
 func runC10(r *report.Run) {
-	r.SetRule("generated files that always declare locations and a client-subnet map (bound to exact and wildcard names, root wildcard) x queries for names with and without such a map, without EDNS, with EDNS only, and with ECS of family 1/2 at source lengths around and across the declared subnet lengths (0,1,8,...,32 / 0,...,128; host bits zero), plus cookie/DO/size variation, on CDB (combined and per-family prefix sets), RocksDB v1 and v2; the reply read back from its wire form must carry OPT iff the query did, ECS iff the query did with family/source/address unchanged, the prescribed scope (matched declared length, 24/48 default, 0 without map) and the records of the location selected by the subnet, else by the resolver. non-trivial = query carrying ECS for a name that has a client-subnet map; distinct by (file, query)")
+	r.SetRule("generated files that always declare locations and a client-subnet map (bound to exact and wildcard names, root wildcard) x queries for names with and without such a map, without EDNS, with EDNS only, and with ECS of family 1/2 at source lengths around and across the declared subnet lengths (0,1,8,...,32 / 0,...,128; one in five of the non-octet source lengths with bits set beyond the source length), plus cookie/DO/size variation, on CDB (combined and per-family prefix sets), RocksDB v1 and v2; the reply read back from its wire form must carry OPT iff the query did, ECS iff the query did with family/source/address unchanged, the prescribed scope (matched declared length, 24/48 default, 0 without map) and the records of the location selected by the subnet, else by the resolver. non-trivial = query carrying ECS for a name that has a client-subnet map; distinct by (file, query); two further servers run with the response cache on and get follow-up queries for the same question with no EDNS / EDNS only / another address / a shorter source length (counted: follow-ups really answered from the cache)")
 	r.Assume("EDNS version 0 only; ECS addresses have zero host bits and family-sized addresses (other shapes are C13's)")
 	nfiles := r.Pick(30, 1200)
 	for i := 0; i < nfiles; i++ {
@@ -188,7 +223,7 @@ func runC10(r *report.Run) {
 		w := c10World(seed)
 		rng := rand.New(rand.NewSource(seed ^ 0x77777))
 		ix := model.NewIndex(w.Recs)
-		opened, cleanup, err := c02Open(w.Text(), c02Configs[:4])
+		opened, cleanup, err := c02Open(w.Text(), c10Configs)
 		r.Eval(1)
 		if err != nil {
 			r.Violation("", "well-formed file rejected: "+err.Error(), c10Case{WorldSeed: seed})
@@ -220,6 +255,23 @@ func runC10(r *report.Run) {
 					r.Violation("", fmt.Sprintf("%s: %+v: %s", o.cfg.Name, q, msg), c10Case{WorldSeed: seed, Backend: o.cfg.Name, Separate: o.cfg.Separate, Query: q, CanonName: canon[j]})
 					break
 				}
+				if o.cfg.Cache && j%2 == 0 {
+					before := []c02Query{q}
+					for _, v := range c10Variants(q, rng) {
+						hitsBefore := o.srv.Stats.Snapshot()["DNS_cache.hit"]
+						vmsg, _ := c10Check(w, ix, o.srv, canon[j], v, maxAns)
+						r.Count("replies", 1)
+						r.Count("follow_up_queries_on_cache_enabled_servers", 1)
+						if o.srv.Stats.Snapshot()["DNS_cache.hit"] > hitsBefore {
+							r.Count("follow_up_queries_answered_from_the_cache", 1)
+						}
+						if vmsg != "" {
+							r.Violation("", fmt.Sprintf("%s: %+v (asked after %d queries for the same question): %s", o.cfg.Name, v, len(before), vmsg), c10Case{WorldSeed: seed, Backend: o.cfg.Name, Query: v, CanonName: canon[j], Before: before})
+							break
+						}
+						before = append(before, v)
+					}
+				}
 			}
 		}
 		if i == 0 && len(qs) > 0 {
@@ -245,7 +297,7 @@ func replayC10(r *report.Run, raw json.RawMessage) {
 	}
 	w := c10World(c.WorldSeed)
 	ix := model.NewIndex(w.Recs)
-	opened, cleanup, err := c02Open(w.Text(), c02Configs[:4])
+	opened, cleanup, err := c02Open(w.Text(), c10Configs)
 	if err != nil {
 		r.Violation("", err.Error(), c)
 		return
@@ -256,6 +308,9 @@ func replayC10(r *report.Run, raw json.RawMessage) {
 			continue
 		}
 		setSeparate(o.cfg.Separate)
+		for _, b := range c.Before {
+			o.srv.Serve(b.Msg(), harness.NewWriter(b.IP, b.TCP), ix.MaxCandidates()+1)
+		}
 		msg, _ := c10Check(w, ix, o.srv, c.CanonName, c.Query, ix.MaxCandidates()+1)
 		setSeparate(false)
 		fmt.Println(o.cfg.Name+":", msg)
